@@ -143,3 +143,40 @@ def readsOk {V : Type} [DecidableEq V] : List V → List V → Bool
 termination_by h r => h.length + r.length
 
 end Hive.Reactive
+
+/-! ## What `drv_c13` checks on the variant logs of a stress round
+
+`hist` = the values the variable took (unique in the stress rounds), oldest first. -/
+namespace Hive.Reactive
+
+def histPairs : List Nat → List (Nat × Nat)
+  | a :: b :: r => (a, b) :: histPairs (b :: r)
+  | _ => []
+
+/-- `OnUpdateOnce`: at most one call; it satisfies the condition and is a real change (or the initial
+note); no change that certainly happened after registration (from the value `g1` read after
+`OnUpdateOnce` returned) and before the reported one satisfies the condition; if it was never called
+and never unsubscribed, no change from `g1` on satisfies it. -/
+def onceTraceOk (cond : Nat × Nat → Bool) (hist : List Nat) (g1 : Nat) (active : Bool) (calls : List (Nat × Nat)) : Bool :=
+  let later := histPairs (hist.dropWhile (· != g1))
+  match calls with
+  | [] => !active || later.all (fun p => !cond p)
+  | [c] =>
+    cond c && ((histPairs hist).contains c || (c.1 == 0 && hist.contains c.2)) &&
+      (!later.contains c || (later.takeWhile (· != c)).all (fun p => !cond p))
+  | _ => false
+
+/-- `WithValue`: strict alternation; every setup value satisfies the condition and the setups follow
+the history; a still active subscription is set up for exactly the final value (if it satisfies the
+condition) and has been set up for every matching value since its first setup. -/
+def wvTraceOk (cond : Nat → Bool) (hist : List Nat) (active : Bool) (final : Nat) (tr : List (WvEv Nat)) : Bool :=
+  let ss := wvSetups tr
+  wvAlternates tr && ss.all cond && readsOk hist ss &&
+    (if active then
+      tr.foldl wvScan (some none) == some (if cond final then some final else none) &&
+        (match ss with
+         | [] => true
+         | s0 :: _ => ss == (hist.dropWhile (· != s0)).filter cond)
+     else wvClosed tr)
+
+end Hive.Reactive
